@@ -235,6 +235,33 @@ pub fn layout_verdict(l: &Layout) -> Verdict {
     }
 }
 
+/// Names of the methods a declaration generates (getter for readable fields, with_/set_ for writable ones;
+/// a raw identifier loses its `r#` in with_/set_). Some(name) if two of them coincide: such a declaration
+/// is rejected by rustc (E0592) for reasons that have nothing to do with the bit rules.
+pub fn api_name_collision(l: &Layout) -> Option<String> {
+    let mut seen = std::collections::HashSet::new();
+    for n in ["raw_value", "new_with_raw_value", "builder", "new", "default", "ZERO", "DEFAULT"] {
+        seen.insert(n.to_string());
+    }
+    for f in &l.fields {
+        let plain = f.name.strip_prefix("r#").unwrap_or(&f.name).to_string();
+        let mut names = Vec::new();
+        if f.access.readable() {
+            names.push(plain.clone());
+        }
+        if f.access.writable() {
+            names.push(format!("with_{}", plain));
+            names.push(format!("set_{}", plain));
+        }
+        for n in names {
+            if !seen.insert(n.clone()) {
+                return Some(n);
+            }
+        }
+    }
+    None
+}
+
 /// C14: must `builder()` exist? Only meaningful for valid layouts.
 pub fn builder_expected(l: &Layout) -> bool {
     let mut seen = 0u128;
